@@ -833,7 +833,7 @@ func listAlphabet() []lop {
 		ops = append(ops, opElemAppend(r, dp))
 	}
 	ops = append(ops,
-		opElemAppend(dp, nw(3)), // detached receiver
+		opElemAppend(dp, nw(3)),                                                   // detached receiver
 		opElemAppend(f(A), dx), opElemAppend(f(A), rt(A)), opElemAppend(f(A), nl), // invalid argument
 		// member of the same list: successor, predecessor, self, distant, through the root
 		opElemAppend(f(A), b(A)), opElemAppend(b(A), f(A)), opElemAppend(f(A), f(A)), opElemAppend(rt(A), f(A)),
